@@ -108,7 +108,7 @@ func stringGetOwnProperty(obj *object, name string) *property {
 	// TODO Test a string of length >= +int32 + 1?
 	if index := stringToArrayIndex(name); index >= 0 {
 		if chr, ok := stringAt(obj.stringValue(), int(index)); ok {
-			return &property{stringValue(string(chr)), 0}
+			return &property{stringValue(string(chr)), 0o010} // enumerable only (15.5.5.2)
 		}
 	}
 	return nil
